@@ -316,7 +316,8 @@ Definition inst_acc (ps : list pcell) (ds : list dt) (c : cfg) (ki : name * id) 
   let a3 := {| a_desc := a_desc a2; a_group := a_group a2; a_value := revalidate (a_value a2) (a_dt a2); a_dt := a_dt a2 |} in
   let has_dt := match v_dt (pv (getp ps i)) with Some _ => true | None => false end in
   let has_desc := match a_desc a3 with Some _ => true | None => false end in
-  ((k, a3), ok && has_dt && has_desc && dt_consistent (a_dt a3)).
+  (* the copy is rebuilt from the exported description: an inconsistent class level datatype cannot be copied *)
+  ((k, a3), ok && has_dt && has_desc && dt_consistent (a_dt a0) && dt_consistent (a_dt a3)).
 
 Definition new_inst (s : state) (ci : nat) (c : cfg) : inst :=
   let k := nth ci (classes s) cls0 in
